@@ -116,6 +116,38 @@ func runC18(t *Trace, r *Rng, tier string, _ []string) {
 			cat = "s2"
 		}
 		nDocs := r.Range(20, 80)
+		// convex polygons known before indexing, so that points can be planted in every part of them: long
+		// thin kites (base low, tip far to the north: edges run close to meridians) and regular n-gons
+		var polys [][]geo.Point
+		var planted []gpoint
+		for k := 0; k < 4; k++ {
+			cx, cy := float64(r.Intn(2400)-1200)/10, float64(r.Intn(850)-600)/10
+			var poly []geo.Point
+			if k < 3 {
+				w, h, H, dx := 2+float64(r.Intn(20))/10, 1+float64(r.Intn(20))/10, 20+float64(r.Intn(150))/10, float64(r.Intn(20)-10)/10
+				poly = []geo.Point{{Lon: cx - w, Lat: cy}, {Lon: cx + w, Lat: cy}, {Lon: cx + w, Lat: cy + h}, {Lon: cx + dx, Lat: cy + H}}
+			} else {
+				nv := 5 + r.Intn(4)
+				rad := 2 + float64(r.Intn(60))/10
+				for i := 0; i < nv; i++ {
+					a := 2 * math.Pi * float64(i) / float64(nv)
+					poly = append(poly, geo.Point{Lon: cx + rad*math.Cos(a), Lat: cy + rad*math.Sin(a)})
+				}
+			}
+			polys = append(polys, poly)
+			// points towards every vertex (60 % of the way from the centroid), and a few outside
+			var gx, gy float64
+			for _, v := range poly {
+				gx += v.Lon / float64(len(poly))
+				gy += v.Lat / float64(len(poly))
+			}
+			for _, v := range poly {
+				f := 0.3 + float64(r.Intn(40))/100
+				planted = append(planted, gpoint{gx + f*(v.Lon-gx), gy + f*(v.Lat-gy)})
+			}
+			planted = append(planted, gpoint{gx, gy}, gpoint{gx + 9, gy}, gpoint{gx - 9, gy + 3})
+		}
+		nDocs += len(planted)
 		pts := make([][]gpoint, nDocs)
 		batch := idx.NewBatch()
 		for d := 0; d < nDocs; d++ {
@@ -126,6 +158,9 @@ func runC18(t *Trace, r *Rng, tier string, _ []string) {
 			var vals []interface{}
 			for k := 0; k < np; k++ {
 				p := genPoint(r)
+				if k == 0 && d < len(planted) {
+					p = planted[d]
+				}
 				pts[d] = append(pts[d], p)
 				vals = append(vals, map[string]interface{}{"lon": p.lon, "lat": p.lat})
 			}
@@ -269,6 +304,49 @@ func runC18(t *Trace, r *Rng, tier string, _ []string) {
 					func(p gpoint) bool { in, cl := inside(p, 1e-4); return in && cl },
 					func(p gpoint) bool { in, cl := inside(p, 1e-4); return !in && cl },
 					fmt.Sprintf("poly=%v", poly))
+			}
+		}
+		// the planted polygons: vertex list started at any vertex, open or closed (first vertex repeated)
+		for pi, base := range polys {
+			for rot := 0; rot < len(base); rot++ {
+				poly := append(append([]geo.Point{}, base[rot:]...), base[:rot]...)
+				given := poly
+				form := "open"
+				if r.Chance(25) {
+					given = append(append([]geo.Point{}, poly...), poly[0])
+					form = "closed"
+				}
+				q := query.NewGeoBoundingPolygonQuery(given)
+				q.SetField("loc")
+				got, e := run(q)
+				if e != "" {
+					t.Emit(cat+"/polygon-err", true, "echo ok", e)
+					continue
+				}
+				// margin half a degree: the edges are straight lines in lon/lat for the filter and arcs for s2
+				mg := 0.5
+				if pi == 3 {
+					mg = 0.2
+				}
+				inside := func(p gpoint) (in bool, clear bool) {
+					in, clear = true, true
+					for i := range poly {
+						a, b := poly[i], poly[(i+1)%len(poly)]
+						cross := (b.Lon-a.Lon)*(p.lat-a.Lat) - (b.Lat-a.Lat)*(p.lon-a.Lon)
+						d := cross / math.Hypot(b.Lon-a.Lon, b.Lat-a.Lat)
+						if d < 0 {
+							in = false
+						}
+						if math.Abs(d) < mg {
+							clear = false
+						}
+					}
+					return
+				}
+				judge("polygon-planted-"+form, got,
+					func(p gpoint) bool { in, cl := inside(p); return in && cl },
+					func(p gpoint) bool { in, cl := inside(p); return !in && cl && math.Abs(p.lon) < 179 },
+					fmt.Sprintf("poly=%v", given))
 			}
 		}
 		// sort by distance orders hits by true distance
